@@ -473,7 +473,7 @@ def run(ctx):
     ctx.rule = ('for each of %d conversations (both roles): whole-burst, one-byte dribble, every single cut '
                 'offset, pairs of cut offsets, Hypothesis k-cuts (k<=8); another association carried by a second provider of the same process between the two halves of each PDU; the first bytes of a PDU arriving before the local user action that precedes it; a peer PDU cut at every offset while it races a multi-fragment message the local user is sending; the read size of the provider set to exactly the length (a half, a third) of each PDU of the conversation; Hypothesis-generated conversations (the random walks of C05) re-cut at random offsets; two long pipelined streams (> 64 KiB, incl. 30 kB PDUs) in chunks of 100..65536 bytes; x first segment already waiting or not x '
                 'segments back-to-back or each after quiescence; cuts are applied inside the byte string the peer '
-                'sends between two local actions; compared with one-PDU-per-segment delivery; non-trivial = a cut '
+                'sends between two local actions; long pipelined streams (> 64 KiB) incl. ~1800 ignorable PDUs arriving at once after a local abort / a confirmed release; compared with one-PDU-per-segment delivery; non-trivial = a cut '
                 'falls strictly inside a PDU or >=2 PDUs share a segment; distinct by (conversation, cuts, modes)'
                 % len(corpus))
     ctx.assumptions = ['transport modelled as an ordered byte stream delivered in arbitrary segments; kernel '
